@@ -545,6 +545,9 @@ func suiteScope(c *Ctx, mode string) {
 		"c07": "sequential {obtain, record, Close, report, obtain again} cycles on 1-3 identities with 1-64 shards, plain and cached reporters, with and without a sanitizer that aliases two raw keys; nontrivial = a closed scope is re-acquired or reported; distinct by program text",
 	}
 	c.Cov.Rule = rules[mode]
+	if mode == "c10" {
+		scopeLongTimerHistory(c)
+	}
 	n := c.N(1500, 15000)
 	for i := 0; i < n; i++ {
 		r := c.Rng.Fork()
@@ -1273,4 +1276,57 @@ func snapTok(s tally.Snapshot) string {
 	}
 	sort.Strings(out)
 	return joinList(out)
+}
+
+// scopeLongTimerHistory: "exactly one delivery per Record" over a LONG history on one timer (model-independent): a
+// reporter-less test scope keeps every recorded value for its snapshot, a recording reporter receives every one --
+// 70000 records (more than 2^16) on one timer, in order.
+func scopeLongTimerHistory(c *Ctx) {
+	const n = 70000
+	ts := tally.NewTestScope("long", nil)
+	tm := ts.Timer("t")
+	for i := 0; i < n; i++ {
+		tm.Record(time.Duration(i))
+	}
+	snap := ts.Snapshot().Timers()
+	got := -1
+	bad := -1
+	for _, t := range snap {
+		vs := t.Values()
+		got = len(vs)
+		for i, v := range vs {
+			if v != time.Duration(i) {
+				bad = i
+				break
+			}
+		}
+	}
+	line := fmt.Sprintf("test scope, one timer, %d records of distinct durations, snapshot", n)
+	if got != n || bad >= 0 {
+		c.Cov.Fail(Failure{Kind: "violated", Clause: "one-delivery-per-record", Signature: "scope-c10-long-history-test-scope", Line: line,
+			Reply: fmt.Sprintf("the snapshot holds %d values (first wrong value at index %d)", got, bad)})
+	}
+	rec := newRec()
+	root, closer := tally.VerifNewRootScope(tally.ScopeOptions{Reporter: rec, OmitCardinalityMetrics: true}, 0, 1)
+	tm2 := root.SubScope("s").Timer("t")
+	for i := 0; i < n; i++ {
+		tm2.Record(time.Duration(i))
+	}
+	cnt := 0
+	okOrder := true
+	for _, e := range rec.log.Take() {
+		if e.Kind == "timer" {
+			if e.I != int64(cnt) {
+				okOrder = false
+			}
+			cnt++
+		}
+	}
+	closer.Close()
+	if cnt != n || !okOrder {
+		c.Cov.Fail(Failure{Kind: "violated", Clause: "one-delivery-per-record", Signature: "scope-c10-long-history-reporter", Line: "plain reporter, one timer, 70000 records",
+			Reply: fmt.Sprintf("%d deliveries, in order: %v", cnt, okOrder)})
+	}
+	c.Cov.Hit("c10.long-history")
+	c.Cov.Eval(line, true)
 }
